@@ -32,6 +32,7 @@ func (x *task) isTransitivelyDone() bool { return x == nil || x.transitive.Load(
 // All calls to x.addEdge(...) should happen before x.markDone().
 func (x *task) addEdge(y *task) {
 	if x == y || y.isTransitivelyDone() {
+		verifTaskEdge(x, y, false)
 		return // no work remaining
 	}
 
@@ -46,18 +47,22 @@ func (x *task) addEdge(y *task) {
 		x.edges = make(map[*task]unit)
 	}
 	x.edges[y] = unit{}
+	verifTaskEdge(x, y, true)
 }
 
 // markDone changes the task's state to markDone.
 func (x *task) markDone() {
 	if x != nil {
+		verifTaskMarkDone(x)
 		close(x.done)
 	}
 }
 
 // wait blocks until x and all the tasks it can reach through edges are done.
 func (x *task) wait() {
+	vw := verifWaitStart(x)
 	if x.isTransitivelyDone() {
+		verifWaitFast(vw, x)
 		return // already known to be done. Skip allocations.
 	}
 
@@ -79,10 +84,12 @@ func (x *task) wait() {
 	for i := 0; i < len(work); i++ {
 		u := work[i]
 		if u.isTransitivelyDone() { // already transitively done
+			verifWaitSkip(vw, u)
 			work[i] = nil
 			continue
 		}
 		<-u.done // wait for u to be marked done.
+		verifWaitObserve(vw, u)
 
 		for v := range u.edges {
 			if _, ok := enqueued[v]; !ok {
@@ -95,6 +102,7 @@ func (x *task) wait() {
 	// work is transitively closed over dependencies.
 	// u in work is done (or transitively done and skipped).
 	// u is transitively done.
+	verifWaitClosed(vw, x)
 	for _, u := range work {
 		if u != nil {
 			x.transitive.Store(true)
